@@ -27,6 +27,8 @@ use hashbrown::{
 };
 
 use super::Stages;
+#[cfg(brood_verif)]
+use crate::verif::rayon_shim as rayon;
 
 define_null!();
 
